@@ -2,6 +2,7 @@
    exemptions make one. *)
 Require Import Base Extracted Criteria Search AuditGraph DepGraph Resolve Update Commands.
 Require Import SearchProofs ResolveProofs ResolveTheorems UpdateProofs UpdateKeep EndToEnd SuggestProofs SuggestHeal CertifyProofs TrustProofs ImportCmdProofs UserCommands Witness.
+Require Import CertifyCollapse.
 Local Open Scope N_scope.
 
 (* In RegenerateExemptions mode (init, regenerate exemptions) the search for a
@@ -73,6 +74,15 @@ Theorem C10_certify_preserves_vetting : forall inp s target a,
      violation_conflicts (st_criteria s) (store_for (add_audit_store s target a) (pk_name p)) = []) ->
   vets inp (cmd_certify target a inp s).
 Proof. exact certify_preserves_vetting. Qed.
+(* ... whichever entry certify records: the delta as asked for, or folded with an adjacent prior audit (CertifyCollapse.v) *)
+Theorem C10_certify_with_fold_preserves_vetting : forall inp s target imp_of from_is_git no_collapse new,
+  let e := certified_entry imp_of (st_criteria s) (store_for s target) from_is_git no_collapse new in
+  store_ok inp s -> (forall c, In c (au_crit new) -> c < N.of_nat (ct_len (st_criteria s))) ->
+  vets inp s ->
+  (forall i p, pkg_at inp s i p -> pk_third_party p = true ->
+     violation_conflicts (st_criteria s) (store_for (add_audit_store s target e) (pk_name p)) = []) ->
+  vets inp (cmd_certify target e inp s).
+Proof. exact certify_fold_preserves_vetting. Qed.
 Example C10_certify_nonvacuous :
   let a := new_audit (Some 0) 2 [1] in
   has_errors (resolve w_graph w_store) = false /\
@@ -131,3 +141,4 @@ Print Assumptions C10_certify_preserves_vetting.
 Print Assumptions C10_trust_preserves_vetting.
 Print Assumptions C10_import_preserves_vetting.
 Print Assumptions C10_init_and_regenerate_certify.
+Print Assumptions C10_certify_with_fold_preserves_vetting.
